@@ -141,8 +141,17 @@ def stdAllCase : P Verdict := do
   let roots ← P.list (do let t ← pTyExpr; let id ← P.nat; pure (t, id))
   let reg ← P.registry
   let vals ← P.list (do let j ← P.nat; let v ← pVal; let b ← P.str; pure (j, v, b))
+  let ids2 ← P.list P.nat
+  let reg2 ← P.registry
   let mut errs : List String := []
   if !Spec.wf reg then errs := errs ++ ["C01: the shared registry of the built-in corpus is not dense and closed"]
+  if !Spec.wf reg2 then errs := errs ++ ["C01: the shared registry (reverse order) is not dense and closed"]
+  -- C11: the same roots in reverse order give the same registry up to a renaming of ids
+  if reg2.length != reg.length then errs := errs ++ ["C11: registering the same built-in types in reverse order gives a registry of different size"]
+  match Spec.iso (Spec.regGraph reg2) (Spec.regGraph reg) (8 * (Spec.edgeCount (reg.map (·.ty)) + Spec.edgeCount (reg2.map (·.ty))) + 64)
+      (ids2.zip (roots.map (·.2))) with
+  | .error e => errs := errs ++ [s!"C11: registering the same built-in types in reverse order does not give the same registry up to renaming: {e}"]
+  | .ok _ => pure ()
   -- model graph over declared identities
   let nodes := closure docs 1000000 (roots.map (·.1)) []
   let g1 : Nat → Option (Ty Nat) := fun i =>
